@@ -232,4 +232,6 @@ def config_context(
     try:
         yield
     finally:
-        _global_config.update(**old_config)
+        # Restore exactly the old configuration, dropping options set inside the context.
+        _global_config.clear()
+        _global_config.update(old_config)
